@@ -111,7 +111,13 @@ func buildSubject(ver, typ string, fs []fault) (*roomCtx, []byte, error) {
 		}
 		first := strings.HasPrefix(f.Path, "dupfirst/")
 		key := f.Path[strings.Index(f.Path, "/")+1:]
-		v, absent := classValue(f.Kind, f.Cls, nil)
+		var v json.RawMessage
+		absent := false
+		if f.Cls == "collide" {
+			v = jstr(room.ids["pl"])
+		} else {
+			v, absent = classValue(f.Kind, f.Cls, rawOf(lookup(t, []string{key})))
+		}
 		if absent || len(text) < 2 {
 			continue
 		}
@@ -751,6 +757,27 @@ func execRaw(r *rec) hx.Result {
 		}
 		s.rawOp(op, r.Ver, in)
 	}
+	// canonical class: a crash that the well-formed event shows under the same operation is keyed `wellformed`
+	if r.Type == "event" && len(s.panics) > 0 && r.P1 != "none" {
+		r0 := *r
+		r0.P1, r0.K1, r0.C1 = "none", "none", "none"
+		data0 := rawInput(&r0)
+		s0 := &pipeState{class: "event-json:wellformed", raw: data0}
+		for _, op := range r.Ops {
+			in := data0
+			if strings.HasPrefix(op, "Body:") {
+				in = wrapInBody(op, r.Ver, data0)
+			}
+			s0.rawOp(op, r.Ver, in)
+		}
+		for i := range s.panics {
+			for _, f0 := range s0.panics {
+				if f0.Func == s.panics[i].Func {
+					s.panics[i].Key = f0.Key
+				}
+			}
+		}
+	}
 	return finish(s, r, "raw")
 }
 
@@ -775,6 +802,8 @@ func wrapInBody(op, ver string, ev []byte) []byte {
 		return marshalTree(tree{"origin": "hs1", "origin_server_ts": 1700000000000, "pdus": []interface{}{chain[len(chain)-1], e}})
 	case "Body:LoadAndVerify":
 		return marshalTree(append(chain, e))
+	case "Body:Backfill": // the event listed twice among the PDUs of the answer
+		return marshalTree(tree{"origin": "hs1", "origin_server_ts": 1700000000000, "pdus": append(append([]interface{}{e}, chain...), e)})
 	}
 	fatalf("cannot wrap an event for %q", op)
 	return nil
